@@ -267,6 +267,14 @@ func c04Program(r *verifrt.Rand, kind int) c04prog {
 		for i := 0; i < 3; i++ {
 			p.Names = append(p.Names, fmt.Sprintf("big/%d/", i)+strings.Repeat("B", 3900+r.Intn(150)))
 		}
+		if (kind/8)%2 == 1 {
+			// (the growth-by-several-pages pattern of the driver: seven more big names
+			// and a small one)
+			for i := 3; i < 10; i++ {
+				p.Names = append(p.Names, fmt.Sprintf("big/%d/", i)+strings.Repeat("B", 3900+r.Intn(150)))
+			}
+			p.Names = append(p.Names, "small/x")
+		}
 	case 3:
 		p.Name = "page-tail"
 		// records sized so that the page fills up to the tail
@@ -640,6 +648,23 @@ func TestVerifC04(t *testing.T) {
 				}
 				r.Hit("in-place-init-pattern")
 			}
+			if p.Name == "extend-race" && len(p.Names) > 10 {
+				// one process is stopped at its k-th point (all k: also between reading
+				// the allocation limit and growing the file for a small or a big record)
+				// while another grows the file by two pages and more; then it goes on with
+				// its view of a file that was shorter
+				k := 1 + (i/16)%35
+				pass := (i / 16) / 35
+				vk := []string{"add", "raw"}[pass%2]
+				vn := 0 // a big name,
+				if pass >= 4 {
+					vn = 10 // or the small one
+				}
+				p.Procs = [][]c04op{{{Kind: vk, Name: vn, N: 1}}, {{Kind: "raw", Name: 1, N: 1}, {Kind: "raw", Name: 2, N: 1}, {Kind: "raw", Name: 3, N: 1}, {Kind: "raw", Name: 4, N: 1}, {Kind: "raw", Name: 5, N: 1}, {Kind: "raw", Name: 6, N: 1}, {Kind: "add", Name: 7, N: 2}}}
+				p.KillAt = make([]int, 2)
+				st = c03strategy{Kind: "park", Phases: []verifrt.Phase{{Thread: 0, Until: k}, {Thread: 1, Until: -1}, {Thread: 0, Until: -1}}}
+				r.Hit("grow-by-pages-pattern")
+			}
 			if p.Name == "colliding-big" && (i/7)%2 == 1 {
 				// one process links a record beyond everybody's mapping; the
 				// victim starts, is parked at its k-th point (for all k: also
@@ -753,7 +778,7 @@ func TestVerifC04(t *testing.T) {
 			e.close()
 		}
 	})
-	res.Require("creator-killed-pattern", "saturating-base-written", "program:saturating", "remap-twice-pattern", "program:colliding-big", "program:same-name", "program:colliding-names", "program:extend-race", "program:page-tail", "program:concurrent-create", "program:other-program", "other-program-refused", "no-hard-links", "in-place-init-pattern", "schedule-with-kill", "strategy:pct", "strategy:park")
+	res.Require("creator-killed-pattern", "saturating-base-written", "program:saturating", "remap-twice-pattern", "program:colliding-big", "program:same-name", "program:colliding-names", "program:extend-race", "program:page-tail", "program:concurrent-create", "program:other-program", "other-program-refused", "no-hard-links", "in-place-init-pattern", "grow-by-pages-pattern", "schedule-with-kill", "strategy:pct", "strategy:park")
 	if err := res.Write(); err != nil {
 		t.Fatal(err)
 	}
